@@ -121,3 +121,29 @@ def write_ndjson(path, records):
     with open(path, "w") as f:
         for r in records:
             f.write(json.dumps(r, separators=(",", ":")) + "\n")
+
+
+def validate_in_chunks(module, traces, rep, name, chunk=4000, env=None, workers=None, timeout=3600, cfg=None):
+    """Runs a trace specification over `traces` in chunks (TLC keeps every initial state and the
+    parsed cases in memory) and returns {id: verdict record}.  Raises TlcError when a verdict is missing."""
+    from .common import workdir, NCPU
+    d = workdir(name)
+    out = {}
+    for k in range(0, len(traces), chunk):
+        part = traces[k:k + chunk]
+        path = os.path.join(d, "traces-%d.ndjson" % (k // chunk))
+        write_ndjson(path, part)
+        e = {"CASES": path}
+        if env:
+            e.update(env)
+        res = run_tlc(module, cfg=cfg, env=e, workers=workers or max(2, NCPU - 2), timeout=timeout)
+        rep.add_tlc(res)
+        got = {r["id"]: r for r in res.records if isinstance(r, dict) and "verdict" in r}
+        missing = [t["id"] for t in part if t["id"] not in got]
+        if missing:
+            raise TlcError("%s returned no verdict for %d of %d traces (first: %s)\n%s" % (
+                module, len(missing), len(part), missing[0], res.raw_tail))
+        out.update(got)
+        if len(traces) > chunk:
+            os.remove(path)
+    return out
